@@ -187,7 +187,7 @@ impl Property for C18 {
         1400
     }
     fn quick_cases(&self) -> u64 {
-        48_000
+        192_000
     }
     fn states_termination(&self) -> bool {
         true
